@@ -217,6 +217,7 @@ func DecodeFrame(data []byte) (dec *Decoder, width, height int, y []byte, yStrid
 
 	width = dec.picHdr.Width
 	height = dec.picHdr.Height
+	verifAfterHeaders(dec)
 
 	if err = dec.initFrame(); err != nil {
 		ReleaseDecoder(dec)
